@@ -1266,6 +1266,29 @@ func (c *cenv) call(e *ast.CallExpr) Val {
 			fv.declUF(uf, sorts, v.sortOf())
 			v.T = "(" + uf + " " + strings.Join(terms, " ") + ")"
 			return v
+		case "staticresult":
+			// staticresult(f, i): i-th result of the latest (static) call of function/method f on this path
+			fid, ok1 := e.Args[0].(*ast.Ident)
+			il, ok2 := e.Args[1].(*ast.BasicLit)
+			if !ok1 || !ok2 {
+				return c.fail("staticresult(function, index)")
+			}
+			if v, ok := c.st.ghost["res:"+fid.Name+"."+il.Value]; ok {
+				return v
+			}
+			// no such call on this path: an unconstrained value of the result's type
+			if c.pkg != nil {
+				idx, _ := strconv.Atoi(il.Value)
+				for _, mf := range fv.eng.modFuncs {
+					if mf.Name() == fid.Name && mf.Pkg != nil && mf.Pkg.Pkg == c.pkg && idx < mf.Signature.Results().Len() {
+						fv.quiet++
+						u := fv.unknown(c.st, mf.Signature.Results().At(idx).Type(), "nocall")
+						fv.quiet--
+						return u
+					}
+				}
+			}
+			return Val{K: KIface, T: fv.decl("nocall", "Iface"), Typ: types.NewInterfaceType(nil, nil), Sort: "nocall"}
 		case "calledfn":
 			// calledfn(f): function/method f was called (statically) on this path
 			fid, ok1 := e.Args[0].(*ast.Ident)
